@@ -1,101 +1,308 @@
-//! C08 witness search (bounded): statements built from every subset of clauses, rendered by the MySQL and Postgres
-//! backends; the top-level keywords (outside quotes and parentheses) must appear at most once each, in the dialect's
-//! grammar order, and every clause that was given must be present.
+//! C08 witness search (bounded): statements built from subsets of clauses, rendered by the MySQL and Postgres backends and
+//! compared with the statement text the dialect's grammar requires (ORACLE, hand-written from the MySQL 8.0 / PostgreSQL 16
+//! manuals: clause order, the dialect's own form of each clause, nothing from another dialect).  Whitespace runs outside
+//! quotes are normalised.  Builder calls are made in an order different from the grammar's.
+//!
+//! Two renderings are genuine, RECORDED defects (known_findings.json); the oracle knows their deviant text so that they are
+//! reported under their own label and cannot hide any other difference in the same statement:
+//!   window-spec-without-parentheses : `WINDOW w AS PARTITION BY c`   (every grammar: `WINDOW w AS ( .. )`)
+//!   mysql-on-duplicate-key-ignore   : `ON DUPLICATE KEY IGNORE`      (not MySQL syntax)
 use crate::util::Witness;
+use sea_query::extension::mysql::*;
+use sea_query::extension::postgres::*;
 use sea_query::*;
 
 fn a(s: &str) -> Alias { Alias::new(s) }
 
-/// top-level keywords of `sql` in reading order
-fn keywords(sql: &str) -> Vec<&'static str> {
-    const KW: &[&str] = &["WITH ", "SELECT ", " FROM ", " JOIN ", " WHERE ", " GROUP BY ", " HAVING ", " WINDOW ", " UNION ", " ORDER BY ", " LIMIT ", " OFFSET ", " FOR ",
-        "UPDATE ", " SET ", "DELETE ", " RETURNING ", "INSERT ", " VALUES ", " ON CONFLICT ", " ON DUPLICATE KEY UPDATE "];
+/// collapse runs of spaces outside quoted tokens; trim
+fn norm(sql: &str) -> String {
     let b: Vec<char> = sql.chars().collect();
-    let (mut i, mut depth, mut out) = (0usize, 0i32, vec![]);
+    let (mut i, mut out) = (0usize, String::new());
     while i < b.len() {
         let c = b[i];
-        if c == '\'' || c == '"' || c == '`' { let q = c; i += 1; while i < b.len() && b[i] != q { if b[i] == '\\' && q == '\'' { i += 1; } i += 1; } i += 1; continue; }
-        if c == '(' { depth += 1; } else if c == ')' { depth -= 1; }
-        if depth == 0 {
-            let rest: String = b[i..(i + 26).min(b.len())].iter().collect();
-            for k in KW { if rest.starts_with(k) && (i > 0 || !k.starts_with(' ')) { if !(k.starts_with(' ') == false && i > 0 && b[i - 1].is_alphanumeric()) { out.push(*k); } break; } }
+        if c == '\'' || c == '"' || c == '`' {
+            let q = c; out.push(c); i += 1;
+            while i < b.len() { out.push(b[i]); if b[i] == '\\' && q == '\'' && i + 1 < b.len() { i += 1; out.push(b[i]); } else if b[i] == q { break; } i += 1; }
+            i += 1; continue;
         }
-        i += 1;
+        if c == ' ' && out.ends_with(' ') { i += 1; continue; }
+        out.push(c); i += 1;
     }
-    out
-}
-fn rank(k: &str) -> usize {
-    ["WITH ", "INSERT ", "UPDATE ", "DELETE ", "SELECT ", " FROM ", " JOIN ", " SET ", " VALUES ", " WHERE ", " GROUP BY ", " HAVING ", " WINDOW ", " UNION ", " ORDER BY ", " LIMIT ", " OFFSET ", " FOR ",
-     " ON CONFLICT ", " ON DUPLICATE KEY UPDATE ", " RETURNING "].iter().position(|x| *x == k).unwrap_or(99)
+    out.trim().to_string()
 }
 
-fn check_select(mask: u32) -> Option<Witness> {
-    let mut s = Query::select();
-    s.column(a("c")).from(a("t"));
-    let mut want: Vec<&str> = vec!["SELECT ", " FROM "];
-    if mask & 1 != 0 { s.inner_join(a("u"), Expr::col((a("t"), a("c"))).equals((a("u"), a("c")))); want.push(" JOIN "); }
-    if mask & 2 != 0 { s.and_where(Expr::col(a("c")).gt(1)); want.push(" WHERE "); }
-    if mask & 4 != 0 { s.group_by_col(a("c")); want.push(" GROUP BY "); }
-    if mask & 8 != 0 { s.and_having(Expr::col(a("c")).max().lt(9)); want.push(" HAVING "); }
-    if mask & 16 != 0 { s.window(a("w"), WindowStatement::partition_by(a("c"))); want.push(" WINDOW "); }
-    if mask & 32 != 0 { s.union(UnionType::All, Query::select().column(a("c")).from(a("v")).to_owned()); want.push(" UNION "); }
-    if mask & 64 != 0 { s.order_by(a("c"), Order::Desc); want.push(" ORDER BY "); }
-    if mask & 128 != 0 { s.limit(5); want.push(" LIMIT "); }
-    if mask & 256 != 0 { s.offset(6); want.push(" OFFSET "); }
-    if mask & 512 != 0 { s.lock(LockType::Update); want.push(" FOR "); }
-    for (name, sql) in [("mysql", s.to_string(MysqlQueryBuilder)), ("postgres", s.to_string(PostgresQueryBuilder))] {
-        let got = keywords(&sql);
-        let label = format!("select clauses mask {mask:#b}");
-        if got != want {
-            let sorted = got.windows(2).all(|w| rank(w[0]) < rank(w[1]));
-            return Some(Witness { property: "C08", input: label, observed: format!("{name}: {sql}  -- top-level keywords {got:?}{}", if sorted { "" } else { " (not in grammar order)" }), expected: format!("{want:?}") });
+/// expected text in both dialects, built piecewise in GRAMMAR order; `dev` = the same with the recorded deviations
+#[derive(Default, Clone)]
+struct Exp { my: String, pg: String, my_dev: String, pg_dev: String, devs: Vec<&'static str> }
+impl Exp {
+    fn both(&mut self, my: &str, pg: &str) { self.my += my; self.pg += pg; self.my_dev += my; self.pg_dev += pg; }
+    fn q(&mut self, s: &str) { let p = s.replace('`', "\""); self.both(s, &p); }   // same text, dialect's identifier quotes
+    fn dev(&mut self, name: &'static str, my: (&str, &str), pg: (&str, &str)) { self.my += my.0; self.my_dev += my.1; self.pg += pg.0; self.pg_dev += pg.1; self.devs.push(name); }
+}
+
+fn verdict(label: String, e: &Exp, my: String, pg: String) -> Option<Witness> {
+    for (name, got, want, want_dev) in [("mysql", norm(&my), norm(&e.my), norm(&e.my_dev)), ("postgres", norm(&pg), norm(&e.pg), norm(&e.pg_dev))] {
+        if got == want { continue; }
+        if got == want_dev {
+            return Some(Witness { property: "C08", input: label, observed: format!("known-deviation({}) {name}: {got}", e.devs.join(",")), expected: want });
         }
+        return Some(Witness { property: "C08", input: label, observed: format!("{name}: {got}"), expected: want });
     }
     None
 }
 
-/// UPDATE / DELETE: every table / clause given is present, keywords in grammar order, dialect-only forms only in their dialect
+fn cte() -> CommonTableExpression {
+    CommonTableExpression::new().query(Query::select().column(a("c")).from(a("v")).to_owned()).table_name(a("cte")).column(a("c")).to_owned()
+}
+const CTE: &str = "`cte` (`c`) AS (SELECT `c` FROM `v`) ";
+
+fn order_item(s: &mut dyn FnMut(Alias, Order, Option<NullOrdering>), e: &mut Exp, ord: usize) {
+    let (kind, nulls) = (ord % 3, ord / 3);
+    let o = match kind { 0 => Order::Asc, 1 => Order::Desc, _ => Order::Field(Values(vec![1.into(), 2.into()])) };
+    let n = match nulls { 0 => None, 1 => Some(NullOrdering::First), _ => Some(NullOrdering::Last) };
+    s(a("c"), o, n);
+    let key_my = match kind { 0 => "`c` ASC", 1 => "`c` DESC", _ => "CASE WHEN `c`=1 THEN 0 WHEN `c`=2 THEN 1 ELSE 2 END" };
+    let key_pg = key_my.replace('`', "\"");
+    // MySQL has no NULLS FIRST / LAST: emulated by an extra leading sort key; Postgres: suffix
+    let (pre_my, suf_pg) = match nulls { 0 => ("", ""), 1 => ("`c` IS NULL DESC, ", " NULLS FIRST"), _ => ("`c` IS NULL ASC, ", " NULLS LAST") };
+    e.both(&format!("{pre_my}{key_my}"), &format!("{key_pg}{suf_pg}"));
+}
+
+const SEL_BITS: u32 = 14;
+fn check_select(mask: u32, ord: usize, lock: usize) -> Option<Witness> {
+    let bit = |k: u32| mask & (1 << k) != 0;
+    let mut s = Query::select();
+    let mut e = Exp::default();
+    // ---- builder calls, deliberately NOT in grammar order
+    if bit(13) {
+        match lock { 0 => { s.lock(LockType::Update); } 1 => { s.lock(LockType::Share); } 2 => { s.lock_with_tables_behavior(LockType::Update, [a("t")], LockBehavior::Nowait); } _ => { s.lock_with_behavior(LockType::Update, LockBehavior::SkipLocked); } }
+    }
+    if bit(11) { s.limit(5); }
+    if bit(9) { s.union(UnionType::All, Query::select().column(a("c")).from(a("v")).to_owned()); }
+    if bit(7) { s.and_having(Expr::col(a("c")).max().lt(9)); }
+    if bit(5) { s.and_where(Expr::col(a("c")).gt(1)); }
+    if bit(3) { s.table_sample(SampleMethod::SYSTEM, 50.0, None); }
+    if bit(1) { s.distinct(); }
+    s.column(a("c")).from(a("t"));
+    if bit(0) { s.with_cte(cte()); }
+    if bit(2) { s.use_index(IndexName::new("idx"), IndexHintScope::All); }
+    if bit(4) { s.inner_join(a("u"), Expr::col((a("t"), a("c"))).equals((a("u"), a("c")))); }
+    if bit(6) { s.group_by_col(a("c")); }
+    if bit(8) { s.window(a("w"), WindowStatement::partition_by(a("c"))); }
+    let mut eo = Exp::default();
+    if bit(10) {
+        let mut f = |c: Alias, o: Order, n: Option<NullOrdering>| { match n { Some(n) => { s.order_by_with_nulls(c, o, n); } None => { s.order_by(c, o); } } };
+        order_item(&mut f, &mut eo, ord);
+        s.order_by(a("e"), Order::Desc);
+        eo.q(", `e` DESC");
+    }
+    if bit(12) { s.offset(6); }
+    // ---- the grammar's order
+    if bit(0) { e.q(&format!("WITH {CTE}")); }
+    e.q("SELECT ");
+    if bit(1) { e.q("DISTINCT "); }
+    e.q("`c` FROM `t`");
+    if bit(2) { e.both(" USE INDEX (`idx`)", ""); }            // index hints: MySQL only
+    if bit(3) { e.both("", " TABLESAMPLE SYSTEM (50)"); }      // TABLESAMPLE: Postgres only
+    if bit(4) { e.q(" INNER JOIN `u` ON `t`.`c` = `u`.`c`"); }
+    if bit(5) { e.q(" WHERE `c` > 1"); }
+    if bit(6) { e.q(" GROUP BY `c`"); }
+    if bit(7) { e.q(" HAVING MAX(`c`) < 9"); }
+    if bit(8) { e.dev("window-spec-without-parentheses", (" WINDOW `w` AS (PARTITION BY `c`)", " WINDOW `w` AS PARTITION BY `c`"), (" WINDOW \"w\" AS (PARTITION BY \"c\")", " WINDOW \"w\" AS PARTITION BY \"c\"")); }
+    if bit(9) { e.q(" UNION ALL (SELECT `c` FROM `v`)"); }
+    if bit(10) { e.q(" ORDER BY "); e.both(&eo.my, &eo.pg); }
+    if bit(11) { e.q(" LIMIT 5"); }
+    if bit(12) { e.q(" OFFSET 6"); }
+    if bit(13) { e.q(match lock { 0 => " FOR UPDATE", 1 => " FOR SHARE", 2 => " FOR UPDATE OF `t` NOWAIT", _ => " FOR UPDATE SKIP LOCKED" }); }
+    verdict(format!("select mask={mask} ord={ord} lock={lock}"), &e, s.to_string(MysqlQueryBuilder), s.to_string(PostgresQueryBuilder))
+}
+
+/// INSERT: shape 0 = one row, 1 = two rows, 2 = INSERT .. SELECT, 3 = default values; conflict 0..=6; returning 0 none, 1 column, 2 all
+fn check_insert(shape: usize, conflict: usize, returning: usize, with: bool) -> Option<Witness> {
+    let mut i = Query::insert();
+    let mut e = Exp::default();
+    match returning { 1 => { i.returning_col(a("a")); } 2 => { i.returning_all(); } _ => {} }
+    match conflict {
+        1 => { i.on_conflict(OnConflict::column(a("a")).do_nothing().to_owned()); }
+        2 => { i.on_conflict(OnConflict::column(a("a")).update_columns([a("a"), a("b")]).to_owned()); }
+        3 => { i.on_conflict(OnConflict::columns([a("a"), a("b")]).target_and_where(Expr::col(a("a")).gt(0)).update_column(a("b")).action_and_where(Expr::col(a("b")).lt(5)).to_owned()); }
+        4 => { i.on_conflict(OnConflict::column(a("a")).value(a("b"), Expr::val(7)).to_owned()); }
+        5 => { i.on_conflict(OnConflict::new().do_nothing().to_owned()); }
+        6 => { i.on_conflict(OnConflict::column(a("a")).do_nothing_on([a("a")]).to_owned()); }
+        _ => {}
+    }
+    i.into_table(a("t"));
+    if with { i.with_cte(cte()); }
+    match shape {
+        0 => { i.columns([a("a"), a("b")]).values_panic([1.into(), 2.into()]); }
+        1 => { i.columns([a("a"), a("b")]).values_panic([1.into(), 2.into()]).values_panic([3.into(), 4.into()]); }
+        2 => { i.columns([a("a"), a("b")]).select_from(Query::select().column(a("c")).column(a("d")).from(a("v")).to_owned()).unwrap(); }
+        _ => { i.or_default_values(); }
+    }
+    if with { e.q(&format!("WITH {CTE}")); }
+    e.q("INSERT INTO `t`");
+    match shape {
+        0 => e.q(" (`a`, `b`) VALUES (1, 2)"),
+        1 => e.q(" (`a`, `b`) VALUES (1, 2), (3, 4)"),
+        2 => e.q(" (`a`, `b`) SELECT `c`, `d` FROM `v`"),
+        _ => e.both(" VALUES ()", " VALUES (DEFAULT)"),
+    }
+    // upsert: MySQL has only ON DUPLICATE KEY UPDATE (no conflict target, no filters); Postgres ON CONFLICT [target [WHERE]] DO ..
+    match conflict {
+        1 => e.dev("mysql-on-duplicate-key-ignore", (" ON DUPLICATE KEY UPDATE `a` = `a`", " ON DUPLICATE KEY IGNORE"), (" ON CONFLICT (\"a\") DO NOTHING", " ON CONFLICT (\"a\") DO NOTHING")),
+        2 => e.both(" ON DUPLICATE KEY UPDATE `a` = VALUES(`a`), `b` = VALUES(`b`)", " ON CONFLICT (\"a\") DO UPDATE SET \"a\" = \"excluded\".\"a\", \"b\" = \"excluded\".\"b\""),
+        3 => e.both(" ON DUPLICATE KEY UPDATE `b` = VALUES(`b`)", " ON CONFLICT (\"a\", \"b\") WHERE \"a\" > 0 DO UPDATE SET \"b\" = \"excluded\".\"b\" WHERE \"b\" < 5"),
+        4 => e.both(" ON DUPLICATE KEY UPDATE `b` = 7", " ON CONFLICT (\"a\") DO UPDATE SET \"b\" = 7"),
+        5 => e.dev("mysql-on-duplicate-key-ignore", (" ON DUPLICATE KEY UPDATE `a` = `a`", " ON DUPLICATE KEY IGNORE"), (" ON CONFLICT DO NOTHING", " ON CONFLICT DO NOTHING")),
+        // do_nothing_on(keys): the MySQL spelling of "do nothing" is a no-op assignment of the key columns
+        6 => e.both(" ON DUPLICATE KEY UPDATE `a` = `a`", " ON CONFLICT (\"a\") DO NOTHING"),
+        _ => {}
+    }
+    match returning { 1 => e.both("", " RETURNING \"a\""), 2 => e.both("", " RETURNING *"), _ => {} }   // MySQL has no RETURNING
+    let label = format!("insert shape={shape} conflict={conflict} returning={returning} with={}", with as u8);
+    let my = i.to_string(MysqlQueryBuilder);
+    let pg = i.to_string(PostgresQueryBuilder);
+    if (conflict == 1 || conflict == 5) && !my.contains("ON DUPLICATE KEY IGNORE") {
+        // any valid MySQL spelling of "do nothing" is accepted: INSERT IGNORE .., or a no-op ON DUPLICATE KEY UPDATE
+        let ok = (my.starts_with("INSERT IGNORE ") || my.contains("WITH ") && my.contains(" INSERT IGNORE ")) && !my.contains("ON DUPLICATE") || my.contains(" ON DUPLICATE KEY UPDATE ");
+        if ok { e.my = my.clone(); }
+    }
+    verdict(label, &e, my, pg)
+}
+
+fn check_delete(mask: u32) -> Option<Witness> {
+    let mut d = Query::delete();
+    let mut e = Exp::default();
+    if mask & 8 != 0 { d.returning_col(a("c")); }
+    if mask & 4 != 0 { d.limit(3); }
+    if mask & 16 != 0 { d.with_cte(cte()); }
+    d.from_table(a("t"));
+    if mask & 2 != 0 { d.order_by(a("c"), Order::Asc); }
+    if mask & 1 != 0 { d.and_where(Expr::col(a("c")).gt(1)); }
+    if mask & 16 != 0 { e.q(&format!("WITH {CTE}")); }
+    e.q("DELETE FROM `t`");
+    if mask & 1 != 0 { e.q(" WHERE `c` > 1"); }
+    if mask & 2 != 0 { e.q(" ORDER BY `c` ASC"); }
+    if mask & 4 != 0 { e.q(" LIMIT 3"); }
+    if mask & 8 != 0 { e.both("", " RETURNING \"c\""); }
+    verdict(format!("delete mask={mask}"), &e, d.to_string(MysqlQueryBuilder), d.to_string(PostgresQueryBuilder))
+}
+
+/// UPDATE: every table / clause given is present, in the dialect's form (MySQL: UPDATE t JOIN f ON cond SET ..; Postgres: .. SET .. FROM f WHERE cond)
 fn check_update(nfrom: usize, mask: u32) -> Option<Witness> {
     let mut u = Query::update();
+    let mut e = Exp::default();
+    if mask & 8 != 0 { u.returning_col(a("c")); }
+    if mask & 4 != 0 { u.limit(3); }
     u.table(a("t")).value(a("c"), 1).value(a("d"), 2);
     let names = ["f1", "f2", "f3"];
     for n in names.iter().take(nfrom) { u.from(a(n)); }
     if mask & 1 != 0 { u.and_where(Expr::col(a("c")).gt(1)); }
     if mask & 2 != 0 { u.order_by(a("c"), Order::Asc); }
-    if mask & 4 != 0 { u.limit(3); }
     let label = format!("update from {nfrom} tables mask {mask:#b}");
-    for (name, sql) in [("mysql", u.to_string(MysqlQueryBuilder)), ("postgres", u.to_string(PostgresQueryBuilder))] {
+    let (my, pg) = (u.to_string(MysqlQueryBuilder), u.to_string(PostgresQueryBuilder));
+    for (name, sql) in [("mysql", &my), ("postgres", &pg)] {
         for n in names.iter().take(nfrom) {
-            if !sql.contains(&format!("{}{n}{}", if name == "mysql" { '`' } else { '"' }, if name == "mysql" { '`' } else { '"' })) {
+            let q = if name == "mysql" { '`' } else { '"' };
+            if !sql.contains(&format!("{q}{n}{q}")) {
                 return Some(Witness { property: "C08", input: label, observed: format!("{name}: {sql}"), expected: format!("table {n} given with from() is rendered") });
             }
         }
-        let got = keywords(&sql);
-        let urank = |k: &str| ["UPDATE ", " JOIN ", " SET ", " FROM ", " WHERE ", " ORDER BY ", " LIMIT ", " RETURNING "].iter().position(|x| *x == k).unwrap_or(99);
-        if !got.windows(2).all(|w| urank(w[0]) < urank(w[1])) {
-            return Some(Witness { property: "C08", input: label, observed: format!("{name}: {sql} -- keywords {got:?}"), expected: "keywords in grammar order, each once".into() });
-        }
-        if name == "mysql" && sql.contains(" FROM ") { return Some(Witness { property: "C08", input: label, observed: format!("{name}: {sql}"), expected: "no UPDATE..FROM on MySQL".into() }); }
-        if name == "postgres" && nfrom > 0 && !sql.contains(" FROM ") { return Some(Witness { property: "C08", input: label, observed: format!("{name}: {sql}"), expected: "UPDATE..FROM on Postgres".into() }); }
-        if mask & 1 != 0 && sql.matches("\"c\" > 1").count() + sql.matches("`c` > 1").count() != 1 { return Some(Witness { property: "C08", input: label, observed: format!("{name}: {sql}"), expected: "the condition is rendered exactly once".into() }); }
+    }
+    if nfrom <= 1 {
+        // exact text for the forms both dialects define
+        e.q("UPDATE `t`");
+        if nfrom == 1 { e.both(if mask & 1 != 0 { " JOIN `f1` ON `c` > 1" } else { " JOIN `f1`" }, ""); }
+        e.both(if nfrom == 1 { " SET `t`.`c` = 1, `t`.`d` = 2" } else { " SET `c` = 1, `d` = 2" }, " SET \"c\" = 1, \"d\" = 2");
+        if nfrom == 1 { e.both("", " FROM \"f1\""); }
+        if mask & 1 != 0 { e.both(if nfrom == 1 { "" } else { " WHERE `c` > 1" }, " WHERE \"c\" > 1"); }
+        if mask & 2 != 0 { e.q(" ORDER BY `c` ASC"); }
+        if mask & 4 != 0 { e.q(" LIMIT 3"); }
+        if mask & 8 != 0 { e.both("", " RETURNING \"c\""); }
+        return verdict(label, &e, my, pg);
     }
     None
 }
 
-pub fn search(_obl: &str) -> Vec<Witness> {
-    std::panic::set_hook(Box::new(|_| {}));
-    let mut found = vec![];
-    for nfrom in 0..3usize { for mask in 0..8u32 { if let Ok(Some(w)) = std::panic::catch_unwind(|| check_update(nfrom, mask)) { found.push(w); } } }
-    for mask in 0..1024u32 { if let Ok(Some(w)) = std::panic::catch_unwind(|| check_select(mask)) { found.push(w); if found.len() >= 5 { break; } } }
-    found
+/// WITH [RECURSIVE] .. [SEARCH ..] [CYCLE ..] <query>: SEARCH / CYCLE are Postgres-only
+fn check_with(mask: u32) -> Option<Witness> {
+    let (search, cycle) = (mask & 1 != 0, mask & 2 != 0);
+    let mut w = WithClause::new();
+    if cycle { w.cycle(Cycle::new_from_expr_set_using(Expr::col(a("c")), a("is_cycle"), a("path"))); }
+    w.recursive(true).cte(cte());
+    if search { w.search(Search::new_from_order_and_expr(if mask & 4 != 0 { SearchOrder::BREADTH } else { SearchOrder::DEPTH }, SelectExpr { expr: Expr::col(a("c")).into(), alias: Some(a("ord").into_iden()), window: None })); }
+    let q = Query::select().column(a("c")).from(a("t")).to_owned().with(w);
+    let mut e = Exp::default();
+    e.q(&format!("WITH RECURSIVE {CTE}"));
+    if search { e.both("", if mask & 4 != 0 { "SEARCH BREADTH FIRST BY \"c\" SET \"ord\" " } else { "SEARCH DEPTH FIRST BY \"c\" SET \"ord\" " }); }
+    if cycle { e.both("", "CYCLE \"c\" SET \"is_cycle\" USING \"path\" "); }
+    e.q("SELECT `c` FROM `t`");
+    verdict(format!("with mask={mask}"), &e, q.to_string(MysqlQueryBuilder), q.to_string(PostgresQueryBuilder))
 }
+
+fn check_misc(k: usize) -> Option<Witness> {
+    let mut e = Exp::default();
+    let (my, pg) = match k {
+        0 => { let q = Query::select().column(a("x")).from_values([(1, "a"), (2, "b")], a("vals")).to_owned();
+               e.both("SELECT `x` FROM (VALUES ROW(1, 'a'), ROW(2, 'b')) AS `vals`", "SELECT \"x\" FROM (VALUES (1, 'a'), (2, 'b')) AS \"vals\"");
+               (q.to_string(MysqlQueryBuilder), q.to_string(PostgresQueryBuilder)) }
+        1 => { let q = Query::select().column(a("c")).from(a("t")).distinct_on([a("c"), a("d")]).to_owned();
+               e.both("SELECT `c` FROM `t`", "SELECT DISTINCT ON (\"c\", \"d\") \"c\" FROM \"t\"");
+               (q.to_string(MysqlQueryBuilder), q.to_string(PostgresQueryBuilder)) }
+        2 => { let q = Query::select().column(a("c")).from(a("t")).left_join(a("u"), Expr::col((a("t"), a("c"))).equals((a("u"), a("c")))).right_join(a("v"), Expr::col((a("t"), a("c"))).equals((a("v"), a("c")))).cross_join(a("x"), Expr::val(1).eq(1)).to_owned();
+               e.q("SELECT `c` FROM `t` LEFT JOIN `u` ON `t`.`c` = `u`.`c` RIGHT JOIN `v` ON `t`.`c` = `v`.`c` CROSS JOIN `x` ON 1 = 1");
+               (q.to_string(MysqlQueryBuilder), q.to_string(PostgresQueryBuilder)) }
+        3 => { let q = Query::select().column(a("c")).from(a("t")).union(UnionType::Distinct, Query::select().column(a("c")).from(a("u")).to_owned()).union(UnionType::Intersect, Query::select().column(a("c")).from(a("v")).to_owned()).union(UnionType::Except, Query::select().column(a("c")).from(a("x")).to_owned()).to_owned();
+               e.q("SELECT `c` FROM `t` UNION (SELECT `c` FROM `u`) INTERSECT (SELECT `c` FROM `v`) EXCEPT (SELECT `c` FROM `x`)");
+               (q.to_string(MysqlQueryBuilder), q.to_string(PostgresQueryBuilder)) }
+        4 => { let q = Query::select().columns([a("c"), a("d")]).expr_as(Expr::col(a("e")).add(1), a("f")).from(a("t")).from(a("u")).group_by_columns([a("c"), a("d")]).order_by(a("d"), Order::Asc).order_by(a("c"), Order::Desc).to_owned();
+               e.q("SELECT `c`, `d`, `e` + 1 AS `f` FROM `t`, `u` GROUP BY `c`, `d` ORDER BY `d` ASC, `c` DESC");
+               (q.to_string(MysqlQueryBuilder), q.to_string(PostgresQueryBuilder)) }
+        _ => return None,
+    };
+    verdict(format!("misc k={k}"), &e, my, pg)
+}
+
+fn kv(label: &str, key: &str) -> Option<u32> {
+    label.split(' ').find_map(|p| p.strip_prefix(key).and_then(|v| v.strip_prefix('=')).and_then(|v| v.parse().ok()))
+}
+
 pub fn check_one(label: &str) -> Option<Witness> {
+    std::panic::set_hook(Box::new(|_| {}));
     if label.starts_with("update from") {
         let n: usize = label.split(' ').nth(2)?.parse().ok()?;
         let m = label.rsplit("0b").next().and_then(|b| u32::from_str_radix(b, 2).ok())?;
         return check_update(n, m);
     }
-    let m = label.rsplit("0b").next().and_then(|b| u32::from_str_radix(b, 2).ok())?;
+    if label.starts_with("select ") { return check_select(kv(label, "mask")?, kv(label, "ord")? as usize, kv(label, "lock")? as usize); }
+    if label.starts_with("insert ") { return check_insert(kv(label, "shape")? as usize, kv(label, "conflict")? as usize, kv(label, "returning")? as usize, kv(label, "with")? != 0); }
+    if label.starts_with("delete ") { return check_delete(kv(label, "mask")?); }
+    if label.starts_with("with ") { return check_with(kv(label, "mask")?); }
+    if label.starts_with("misc ") { return check_misc(kv(label, "k")? as usize); }
+    None
+}
+
+pub fn search(_obl: &str) -> Vec<Witness> {
     std::panic::set_hook(Box::new(|_| {}));
-    check_select(m)
+    let mut found: Vec<Witness> = vec![];
+    let mut per_kind: std::collections::HashMap<String, usize> = Default::default();
+    // at most 3 witnesses per kind (statement family, or recorded deviation) so that one failing family cannot hide another
+    let mut add = |found: &mut Vec<Witness>, w: Option<Witness>| {
+        if let Some(w) = w {
+            let kind = if w.observed.starts_with("known-deviation(") { w.observed.split(')').next().unwrap_or("").to_string() } else { w.input.split(' ').next().unwrap_or("").to_string() };
+            let c = per_kind.entry(kind).or_insert(0);
+            if *c < 3 { *c += 1; found.push(w); }
+        }
+    };
+    macro_rules! run { ($e:expr) => { add(&mut found, std::panic::catch_unwind(std::panic::AssertUnwindSafe(|| $e)).unwrap_or(None)) }; }
+    for nfrom in 0..3usize { for mask in 0..16u32 { run!(check_update(nfrom, mask)); } }
+    for mask in 0..32u32 { run!(check_delete(mask)); }
+    for mask in 0..8u32 { run!(check_with(mask)); }
+    for k in 0..5usize { run!(check_misc(k)); }
+    for shape in 0..4usize { for conflict in 0..7usize { for returning in 0..3usize { for with in [false, true] { run!(check_insert(shape, conflict, returning, with)); } } } }
+    // ORDER BY item kinds x NULLS forms and lock forms, alone and with every other clause present
+    for ord in 0..9usize { for lock in 0..4usize { for mask in [1 << 10, (1 << 10) | (1 << 13), (1 << SEL_BITS) - 1] { run!(check_select(mask, ord, lock)); } } }
+    // every subset of the 14 SELECT clauses
+    for mask in 0..(1u32 << SEL_BITS) { run!(check_select(mask, (mask % 9) as usize, (mask % 4) as usize)); }
+    found
 }
